@@ -59,6 +59,11 @@ def run(ctx, report):
             report.count("write-refused:" + canon_err(e))
             report.case(("refused", str(desc)), False)
             continue
+        if ctx.model_ok:
+            try:
+                wcases.reader_model_stream(ctx, report, path, desc)
+            except Exception as e:  # noqa
+                report.corr_break("rpage.v1", {**rec, "what": "the page walk of the reader-model stream raised " + canon_err(e) + " " + str(e)[:100], "sig": "rpage:walk"})
         probs = []
         try:
             got = fastparquet.ParquetFile(path).to_pandas()
